@@ -42,6 +42,7 @@ type RegexCase struct {
 	Term   []Factor `json:"term"`
 	Top    bool     `json:"top"`
 	Predef string   `json:"predef"`
+	Anchor string   `json:"anchor"` // "", "^", "$", "^$": anchors written around the printed term
 }
 
 type Class struct {
@@ -241,7 +242,14 @@ func printPattern(c RegexCase) string {
 	} else {
 		p.term(c.Term)
 	}
-	return p.b.String()
+	out := p.b.String()
+	if strings.HasPrefix(c.Anchor, "^") {
+		out = "^" + out
+	}
+	if strings.HasSuffix(c.Anchor, "$") {
+		out += "$"
+	}
+	return out
 }
 
 // ---- class membership, used ONLY to compute the alphabet partition ----
